@@ -17,6 +17,19 @@
 // afterwards nothing is pending, so any further throw is a double delivery; wait() always comes
 // back with outstanding count 0; the count equals the number of queued tasks at every quiescent point
 // (throwing never breaks completion accounting); the destructor does not terminate the program.
+//
+// VF_NEST=1 - overlapping task bodies (two throwers in flight at the same time): every body has one
+// marked scheduling point between its start and its throw/finish; there (symbolic choice per body,
+// drawn up front) *another pool worker* takes one queued task of the pool and runs it to completion
+// (runOther: plain nested call of pool.tryExecuteNext(), as harness/C14 and harness/C27 model
+// overlap on the sequential engine).  The nested task's lifetime lies inside the outer one's: the
+// outer task started before the nested one threw, and throws (second recording attempt in
+// trySetCurrentException) after the nested one's exception was published.  The nested task runs as
+// on a fresh pool thread (thread-local task-set stack empty, saved/restored around it); its own
+// packageTask wrapper catches what it throws, so the outer body continues - as in the real library.
+// Thread budget: a nested run needs a free pool worker (tasks in flight on workers < VF_POOL_N); the
+// outer body is run either by the virtual worker step of the harness (then VF_POOL_N >= 2 is needed)
+// or by the owner thread inside wait()/tryWait()/an inline schedule(f).  Nesting depth 1.
 #include <exception>
 #include "../C04/ts_kit.h"
 
@@ -38,6 +51,9 @@
 #ifndef VF_CTX
 #define VF_CTX 1
 #endif
+#ifndef VF_NEST
+#define VF_NEST 0
+#endif
 
 #if VF_SET == 0
 using Set = dispenso::TaskSet;
@@ -54,6 +70,46 @@ static uint32_t g_throwMask;
 static int g_pending;         // oracle: first captured, not yet delivered exception id (-1 none)
 static uint32_t g_delivered;  // exceptions delivered by wait()/tryWait()
 static uint32_t g_direct;     // exceptions propagated directly by schedule(f)
+
+#if VF_NEST
+namespace dispenso {
+namespace detail {
+extern DISPENSO_THREAD_LOCAL int32_t g_taskStackSize;  // task_set.cpp: depth of this thread's task-set stack
+}
+}  // namespace dispenso
+static dispenso::ThreadPool* g_poolp;
+static uint32_t g_nestMask;  // bit id: at body id's scheduling point another worker runs a queued task
+static uint32_t g_depth;     // nesting depth of runOther
+static uint32_t g_busy;      // tasks in flight on (virtual) pool workers
+static uint32_t g_nested;    // nested runs that executed a task (= overlaps that happened)
+
+// Another pool worker takes one queued task and runs it to completion while the calling body is in
+// the middle of its execution.
+VF_NOINLINE static void runOther() {
+  if (g_depth >= 1 || g_busy >= VF_POOL_N) {
+    return;
+  }
+  ++g_depth;
+  ++g_busy;
+  int32_t savedStack = dispenso::detail::g_taskStackSize;
+  dispenso::detail::g_taskStackSize = 0;  // a different thread: its own (empty) task-set stack
+  bool escaped = false;
+  bool ran = false;
+  try {
+    ran = g_poolp->tryExecuteNext();
+  } catch (...) {
+    escaped = true;
+  }
+  vf_check(!escaped, "an exception escaped a packaged task into the pool worker");
+  vf_check(dispenso::detail::g_taskStackSize == 0, "a packaged task left the worker's task-set stack unbalanced");
+  dispenso::detail::g_taskStackSize = savedStack;
+  if (ran) {
+    g_nested++;
+  }
+  --g_busy;
+  --g_depth;
+}
+#endif
 
 // id of the exception being handled (call inside a catch block).  Model: the exception object is the
 // token 0x1000 + id (rt/cbmc_rt.c vf_throw); native: the thrown int.
@@ -74,11 +130,22 @@ struct TBody {
   TBody(const TBody& o) : id(o.id) {}
   void operator()() const {
     g_start[id]++;
+#if VF_NEST
+    uint32_t before = (uint32_t)g_threw[0] + g_threw[1];
+    if ((g_nestMask >> id) & 1) {
+      runOther();  // scheduling point: this body is in flight while another task runs start to end
+    }
+#endif
     if ((g_throwMask >> id) & 1) {
       g_threw[id]++;
       if (g_pending < 0) {
         g_pending = (int)id;
       }
+#if VF_NEST
+      if ((uint32_t)g_threw[0] + g_threw[1] == before + 2) {
+        vf_reach("second thrower: started before the first one threw, throws after it was recorded");
+      }
+#endif
       vf_throw(id);
     }
     g_fin[id]++;
@@ -109,11 +176,17 @@ VF_NOINLINE static void quiescent(Set& ts, dispenso::ThreadPool& pool) {
 
 VF_NOINLINE static void worker(dispenso::ThreadPool& pool) {
   bool escaped = false;
+#if VF_NEST
+  ++g_busy;  // the virtual worker occupies one pool thread while it runs a task
+#endif
   try {
     tskit::workerRun(pool, VF_WSTEPS);
   } catch (...) {
     escaped = true;
   }
+#if VF_NEST
+  --g_busy;
+#endif
   vf_check(!escaped, "an exception escaped a packaged task into the pool worker");
 }
 
@@ -138,7 +211,12 @@ VF_NOINLINE static void submitOne(Set& ts, uint32_t id) {
     vf_check(
         tok == id && g_threw[id] == 1,
         "schedule(f) propagated something other than its own functor's exception");
-    g_pending = saved;  // propagated to the caller, not captured by the set
+    // propagated to the caller, not captured by the set (with VF_NEST an exception captured from a
+    // nested task during this call stays pending: the directly propagated throw is the last event of
+    // the call, so it was first only if nothing else was pending)
+    if (g_pending == (int)id) {
+      g_pending = saved;
+    }
     g_direct++;
   }
 }
@@ -196,6 +274,10 @@ extern "C" void vf_main() {
   tskit::CallerCtx ctx(pool);
   ssize_t mult = (ssize_t)vf_range_u32(1, 4);
   g_throwMask = vf_range_u32(0, 3);
+#if VF_NEST
+  g_poolp = &pool;
+  g_nestMask = vf_range_u32(0, 3);
+#endif
   g_pending = -1;
   g_delivered = 0;
   g_direct = 0;
